@@ -130,6 +130,44 @@ func init() {
 				sites = append(sites, site)
 				continue
 			}
+			if strings.HasPrefix(vis, "jobs=") {
+				// the following publishes use another number of workers
+				if n, e := strconv.Atoi(strings.TrimPrefix(vis, "jobs=")); e == nil && n > 0 {
+					job.Jobs = n
+				}
+				sites = append(sites, site)
+				continue
+			}
+			if strings.HasPrefix(vis, "die=") || strings.HasPrefix(vis, "delete=") || strings.HasPrefix(vis, "repoint=") {
+				// in-place edits of the document between two publishes:
+				//   die=<ptr>            a death is recorded: `1 DEAT Y` added to the individual
+				//   delete=<ptr>         the individual is removed from the document
+				//   repoint=<fam>=<ptr>  the husband of the family becomes another individual
+				if err == nil {
+					kv := strings.SplitN(vis, "=", 3)
+					for _, p := range doc.Individuals() {
+						if p.Pointer() != kv[1] {
+							continue
+						}
+						switch kv[0] {
+						case "die":
+							p.AddNode(gedcom.NewDeathNode("Y"))
+						case "delete":
+							doc.DeleteNode(p)
+						}
+						break
+					}
+					if kv[0] == "repoint" && len(kv) == 3 {
+						for _, f := range doc.Families() {
+							if f.Pointer() == kv[1] {
+								f.SetHusbandPointer(kv[2])
+							}
+						}
+					}
+				}
+				sites = append(sites, site)
+				continue
+			}
 			if strings.HasPrefix(vis, "redate=") {
 				// an edit between two publishes: the DATE below the first BIRT of a person is corrected
 				parts := strings.SplitN(strings.TrimPrefix(vis, "redate="), "=", 2)
@@ -258,6 +296,7 @@ type c17Person struct {
 	burial  string
 	resiPl  string
 	role    map[string]bool
+	asso    int             // index of an associated person (ASSO), -1 = none
 	shapes  []c17ExtraShape // where the person has further places (fixed: the structure of the record)
 	extras  []c17Extra      // their dates and places (private strings)
 }
@@ -336,7 +375,7 @@ func c17date(r *Rand, ylo, yhi int) string {
 }
 
 var c17Kinds = []string{"dead-deat", "dead-deat", "dead-age", "living-young", "living-young", "living-nodates", "living-burial", "living-age-rule",
-	"living-unreadable-birth"}
+	"living-unreadable-birth", "living-exact-threshold", "dead-just-past-threshold"}
 
 // birth dates that exist but cannot be interpreted (worth 0 years): the person's age is unknown, so
 // without a death they are living. c17EmptyDate stands for a `2 DATE` line without a value.
@@ -387,6 +426,12 @@ func c17private(r *Rand, p *c17Person, now int, gen int) {
 		p.burial = c17date(r, now-19, now-1)
 	case "living-age-rule":
 		p.birth, p.birthPl = fmt.Sprintf("%d %s %d", 1+r.Intn(28), c17Months[r.Intn(12)], now-r.Range(95, 99)), place()
+	case "living-exact-threshold":
+		// born exactly MaxLivingAge (100) years before the current year: age = 100 is still living
+		p.birth, p.birthPl = fmt.Sprintf("1 Jan %d", now-100), place()
+	case "dead-just-past-threshold":
+		// one day older: 100 years and a day
+		p.birth, p.birthPl = fmt.Sprintf("31 Dec %d", now-101), place()
 	case "living-unreadable-birth":
 		p.birth, p.birthPl = r.Pick(c17UnreadableDates), place()
 	}
@@ -406,6 +451,10 @@ func c17Gen(r *Rand, now int) *c17Doc {
 		p := &c17Person{id: i, kind: r.Pick(c17Kinds), sex: r.Pick([]string{"M", "F", "", "U"}), role: map[string]bool{}}
 		p.living = strings.HasPrefix(p.kind, "living")
 		p.shapes = c17Shapes(r)
+		p.asso = -1
+		if r.Chance(1, 4) {
+			p.asso = r.Intn(n)
+		}
 		c17private(r, p, now, 0)
 		d.people = append(d.people, p)
 	}
@@ -606,6 +655,10 @@ func (d *c17Doc) Text() string {
 			}
 			w("%d PLAC %s", level, p.extras[k].place)
 		}
+		if p.asso >= 0 && p.asso < len(d.people) {
+			w("1 ASSO @%s@", d.people[p.asso].ptr())
+			w("2 RELA Godparent")
+		}
 		for fi, f := range d.fams {
 			for _, c := range f.chil {
 				if c == p.id {
@@ -749,16 +802,22 @@ func init() {
 			eAgeHist       map[string]string
 		}
 		histories := [][]string{{"show", "hide"}, {"show", "placeholder"}, {"placeholder", "hide"}, {"hide", "show", "hide"},
-			{"placeholder", "show", "placeholder"}}
+			{"placeholder", "show", "placeholder"}, {"hide", "jobs=4", "hide"}, {"show", "jobs=1", "placeholder", "jobs=3", "hide"}}
 		// MaxLivingAge = 0: everybody without a death is living
 		ageHistories := [][2]string{{"hide", "hide"}, {"placeholder", "placeholder"}, {"show", "hide"}, {"show", "placeholder"}}
-		runs := make([]*siteRun, ndocs)
+		boundary := c17BoundaryDocs(c.R.Fork("boundary"), now)
+		runs := make([]*siteRun, ndocs+len(boundary))
 		for i := range runs {
 			r := c.R.Fork(fmt.Sprintf("doc%d", i))
-			d := c17Gen(r, now)
+			var d *c17Doc
+			if i >= ndocs {
+				d = boundary[i-ndocs]
+			} else {
+				d = c17Gen(r, now)
+			}
 			sr := &siteRun{doc: d, variant: c17Variant(r, d, now), jobs: 1 + r.Intn(4)}
 			gm := 63 // all groups on for two thirds of the documents, random subsets otherwise
-			if i%3 == 2 {
+			if i%3 == 2 && i < ndocs {
 				gm = r.Intn(64)
 			}
 			for k := 0; k < 6; k++ {
@@ -791,7 +850,7 @@ func init() {
 			pub(sr.variant, "hide", sr, &sr.hideB, &sr.eHideB)
 		}
 		for i, sr := range runs {
-			if c.Quick() && i%3 != 0 {
+			if (c.Quick() && i%3 != 0) || i >= ndocs {
 				continue
 			}
 			sr.hist = make([][]*c17Site, len(histories))
@@ -809,7 +868,7 @@ func init() {
 		}
 		var ageMu sync.Mutex
 		for i, sr := range runs {
-			if c.Quick() && i%6 != 0 {
+			if (c.Quick() && i%6 != 0) || i >= ndocs {
 				continue
 			}
 			sr := sr
@@ -823,6 +882,38 @@ func init() {
 						nowLiving: func(q *c17Person) bool { return q.living || q.id == id }})
 					break
 				}
+			}
+			// other MaxLivingAge values: compared with a fresh document only (who is living then is what
+			// the fresh document says)
+			for _, age := range []string{"1", "100", "101"} {
+				sr.edits = append(sr.edits, c17Edit{step: "maxage=" + age})
+			}
+			// a death is recorded for a living person; a living person is deleted; a dead one is deleted;
+			// the husband of the first family becomes a living person
+			var firstLiving, firstDead *c17Person
+			for _, p := range sr.doc.people {
+				if p.living && firstLiving == nil {
+					firstLiving = p
+				}
+				if !p.living && firstDead == nil {
+					firstDead = p
+				}
+			}
+			if firstLiving != nil {
+				id := firstLiving.id
+				sr.edits = append(sr.edits,
+					c17Edit{step: "die=" + firstLiving.ptr(), nowLiving: func(q *c17Person) bool { return q.living && q.id != id }},
+					c17Edit{step: "delete=" + firstLiving.ptr(), nowLiving: func(q *c17Person) bool { return q.living }},
+					c17Edit{step: "repoint=F1=" + firstLiving.ptr(), nowLiving: func(q *c17Person) bool { return q.living }})
+			}
+			if firstDead != nil {
+				sr.edits = append(sr.edits, c17Edit{step: "delete=" + firstDead.ptr(), nowLiving: func(q *c17Person) bool { return q.living }})
+			}
+			// quick tier: MaxLivingAge = 0 always, two of the other edits in rotation
+			if c.Quick() && len(sr.edits) > 3 {
+				rest := sr.edits[1:]
+				k := (i / 6) % len(rest)
+				sr.edits = []c17Edit{sr.edits[0], rest[k], rest[(k+3)%len(rest)]}
 			}
 			sr.ageHist = map[string][]*c17Site{}
 			sr.eAgeHist = map[string]string{}
@@ -839,8 +930,11 @@ func init() {
 					ageMu.Unlock()
 				}()
 			}
-			for _, ed := range sr.edits {
-				for _, pair := range ageHistories {
+			for ei, ed := range sr.edits {
+				for pi, pair := range ageHistories {
+					if ei > 0 && pi != 0 && pi != 3 {
+						continue // other edits: hide -> edit -> hide and show -> edit -> placeholder
+					}
 					run(pair[0]+" -> "+ed.step+" -> "+pair[1], []string{pair[0], ed.step, pair[1]})
 				}
 				for _, vis := range []string{"hide", "placeholder"} {
@@ -910,7 +1004,9 @@ func init() {
 			showPages := map[string]int{} // show-mode page name -> person (document order)
 			modePages := map[string]map[string]int{} // per visibility: page name -> person that owns it
 			{
-				if gdoc, err := gedcom.NewDocumentFromString(text); err == nil {
+				// (the boundary documents, > 60 people, go through the oracles only: the page model in the
+				// Lean driver is quadratic in the number of people per page)
+				if gdoc, err := gedcom.NewDocumentFromString(text); err == nil && len(d.people) <= 60 {
 					if abs, rank, ranks, err := c17Abstract(gdoc, sr.show, sr.groups[1]); err != nil {
 						c.Oracle("", "the page abstraction could not be read", input(nil), err.Error(), "an abstraction")
 					} else {
@@ -1019,6 +1115,9 @@ func init() {
 				c.Nontrivial("history/" + hname + "/" + gs)
 				for k, site := range sites {
 					vis := histories[h][k]
+					if strings.Contains(vis, "=") {
+						continue // a pseudo-step (jobs=N), not a publish
+					}
 					step := fmt.Sprintf("publish %d (%s) of the history %s on one document object", k+1, vis, hname)
 					in := func(extra map[string]interface{}) map[string]interface{} {
 						extra["history"] = hname
@@ -1074,15 +1173,25 @@ func init() {
 			// an edit between two publishes of the same document object (MaxLivingAge = 0: everybody without
 			// a death is living; a corrected birth year): the next publish must hide the people who are
 			// living now, exactly like a fresh document with the same edit
-			for _, ed := range sr.edits {
-				d0 := &c17Doc{fams: d.fams, source: d.source}
-				for _, p := range d.people {
-					q := *p
-					q.living = ed.nowLiving(p)
-					d0.people = append(d0.people, &q)
+			for ei, ed := range sr.edits {
+				var markers0 []c17Marker
+				if ed.nowLiving != nil {
+					d0 := &c17Doc{fams: d.fams, source: d.source}
+					for _, p := range d.people {
+						q := *p
+						q.living = ed.nowLiving(p)
+						d0.people = append(d0.people, &q)
+					}
+					markers0 = c17Markers(d0)
+					if strings.HasPrefix(ed.step, "delete=") || strings.HasPrefix(ed.step, "die=") {
+						// the names of a deleted dead person, or of somebody who has just died, may still be
+						// shared tokens: only tokens that belong to people living after the edit count
+					}
 				}
-				markers0 := c17Markers(d0)
-				for _, pair := range ageHistories {
+				for pi, pair := range ageHistories {
+					if ei > 0 && pi != 0 && pi != 3 {
+						continue
+					}
 					hname := pair[0] + " -> " + ed.step + " -> " + pair[1]
 					vis := pair[1]
 					c.Eval()
@@ -1096,14 +1205,12 @@ func init() {
 					c.Nontrivial("history/" + pair[0] + "/" + kind + "/" + pair[1] + "/" + gs)
 					last, want := sites[2], freshSites[1]
 					in := func(extra map[string]interface{}) map[string]interface{} {
-						extra["history"] = hname + "   (one *gedcom.Document in one process; maxage=N is doc.MaxLivingAge = N, redate=P=D replaces the DATE below the first BIRT of @P@ with D through BirthNode.SetNodes)"
+						extra["history"] = hname + "   (one *gedcom.Document in one process; maxage=N: doc.MaxLivingAge = N; redate=P=D: the DATE below the first BIRT of @P@ replaced through BirthNode.SetNodes; die=P: AddNode(NewDeathNode(\"Y\")) on @P@; delete=P: doc.DeleteNode(@P@); repoint=F=P: family @F@ SetHusbandPointer(P))"
 						extra["living"] = vis
 						return input(extra)
 					}
-					what := "Document.MaxLivingAge was changed"
-					if kind == "redate" {
-						what = "a birth date was corrected"
-					}
+					what := map[string]string{"maxage": "Document.MaxLivingAge was changed", "redate": "a birth date was corrected", "die": "a death was recorded",
+						"delete": "an individual was deleted", "repoint": "the husband of a family was changed"}[kind]
 					for _, m := range markers0 {
 						for name, content := range last.Files {
 							if strings.Contains(strings.ToLower(name), m.token) || strings.Contains(strings.ToLower(content), m.token) {
